@@ -20,7 +20,7 @@ SHARD_DEADLINE = {'quick': 300, 'thorough': 3000}
 
 
 def floors(tier):
-    return {'distinct_nontrivial': 300 if tier == 'quick' else 3000, 'pairs_vs_reference': 20000,
+    return {'distinct_nontrivial': 300 if tier == 'quick' else 20000, 'pairs_vs_reference': 20000,
             'assoc_triples': 100000, 'gp_blade_products_executed': 3000, 'spellings_checked': 500,
             'lazy_pairs': 2000}
 
@@ -33,11 +33,11 @@ def plan(tier, seed):
         lazy += [gen.random_custom_cfg(rng, 7)]
         nshards = 16
     else:
-        cfgs = gen.standard_configs(rng, tier, dmax_pqr=6, dmax_sig=6, n_custom=400)
-        for b in gen.all_custom_bases(3, 1)[::7]:
+        cfgs = gen.standard_configs(rng, tier, dmax_pqr=6, dmax_sig=6, n_custom=3000, custom_dims=(3, 4, 4, 5))
+        for b in gen.all_custom_bases(3, 1) + gen.all_custom_bases(3, 0)[::3]:
             cfgs.append({'signature': [rng.choice((1, -1, 0)) for _ in range(3)], 'basis': b})
         lazy = []
-        for i in range(20):
+        for i in range(96):
             d = 7 if i % 2 == 0 else 8
             lazy.append({'signature': gen.random_sig(rng, d)} if i % 4 else gen.random_custom_cfg(rng, 7))
         nshards = 64
